@@ -3,6 +3,7 @@ package cmd
 import (
 	"context"
 	"encoding/json"
+	"errors"
 	"fmt"
 	"os"
 	"path/filepath"
@@ -149,7 +150,14 @@ func runCompactCmd(_ *cobra.Command, _ []string) {
 	if !compactDryRun {
 		fmt.Printf("🛑 Stopping instance '%s'...\n", compactInstanceName)
 		if err := runner.StopInstance(ctx, compactInstanceName); err != nil {
-			// Instance might not be running, that's OK
+			// Only "it was not running" is OK. Any other failure may leave the server running with
+			// open writers: compacting underneath it renames the files away from them and every
+			// record the server writes afterwards goes to an unlinked inode.
+			if !errors.Is(err, instancerunner.ErrServiceNotRunning) && !errors.Is(err, instancerunner.ErrServiceNotFound) {
+				fmt.Printf("❌ Error: failed to stop instance '%s': %v\n", compactInstanceName, err)
+				fmt.Println("   Aborting: compaction needs the instance stopped. Stop it manually and run the command again.")
+				os.Exit(1)
+			}
 			fmt.Printf("   (Instance was not running)\n")
 		} else {
 			wasRunning = true
